@@ -533,9 +533,15 @@ func c20Scenarios(tier string) []SrvScenario {
 	out = append(out, SrvScenario{Name: "F1-bdat-backend-panics-when-aborted-then-next-chunked-transaction", Accepts: []string{"conn"}, Clients: [][]string{{chunk, "RSET\r\n", "MAIL FROM:<ok@c.example>\r\nRCPT TO:<ok1@d.example>\r\nBDAT 5\r\nagain", "BDAT 4 LAST\r\nmore", "QUIT\r\n"}}, Admin: []string{"close"}, Gates: []string{"return"}, Plan: "panic-first-when-done", Chunked: true})
 	// LMTP: the connection is lost inside the LAST chunk (the delivery must be released, every goroutine must end)
 	for _, plan := range []string{"statuses", "reject"} {
-		out = append(out, SrvScenario{Name: "F2-lmtp-disconnect-inside-the-LAST-chunk-" + plan, LMTP: true, Accepts: []string{"conn"}, Clients: [][]string{{lm, "BDAT 10 LAST\r\nabc", "<EOF>"}}, Admin: []string{"close"}, Gates: []string{"return"}, Plan: plan, Chunked: true})
-		out = append(out, SrvScenario{Name: "F2-lmtp-disconnect-inside-the-second-LAST-chunk-" + plan, LMTP: true, Accepts: []string{"conn"}, Clients: [][]string{{lm, "BDAT 2\r\nms", "BDAT 10 LAST\r\nabc", "<EOF>"}}, Admin: []string{"close"}, Gates: []string{"return"}, Plan: plan, Chunked: true})
+		// (with and without a Close call in the scenario: without one, nobody but the server itself can end the connection)
+		for _, admin := range [][]string{{"close"}, nil} {
+			out = append(out, SrvScenario{Name: fmt.Sprintf("F2-lmtp-disconnect-inside-the-LAST-chunk-%s-%d", plan, len(admin)), LMTP: true, Accepts: []string{"conn"}, Clients: [][]string{{lm, "BDAT 10 LAST\r\nabc", "<EOF>"}}, Admin: admin, Gates: []string{"return"}, Plan: plan, Chunked: true})
+			out = append(out, SrvScenario{Name: fmt.Sprintf("F2-lmtp-disconnect-inside-the-second-LAST-chunk-%s-%d", plan, len(admin)), LMTP: true, Accepts: []string{"conn"}, Clients: [][]string{{lm, "BDAT 2\r\nms", "BDAT 10 LAST\r\nabc", "<EOF>"}}, Admin: admin, Gates: []string{"return"}, Plan: plan, Chunked: true})
+		}
+		// the same for DATA and for SMTP: a peer that hangs up in the middle of a transfer, and nobody calls Close
+		out = append(out, SrvScenario{Name: "F2-lmtp-disconnect-inside-a-DATA-message-" + plan, LMTP: true, Accepts: []string{"conn"}, Clients: [][]string{{lm, "DATA\r\n", "half a mess", "<EOF>"}}, Gates: []string{"return"}, Plan: plan})
 	}
+	out = append(out, SrvScenario{Name: "F1-disconnect-inside-a-chunk-nobody-closes", Accepts: []string{"conn"}, Clients: [][]string{{chunk, "BDAT 10 LAST\r\nabc", "<EOF>"}}, Gates: []string{"read", "return"}, Chunked: true})
 	// a backend whose Logout returns an error: the connection is closed all the same
 	out = append(out, SrvScenario{Name: "F3-logout-returns-an-error-close", LogoutErr: true, Accepts: []string{"conn"}, Clients: [][]string{{"EHLO c.example\r\n", "NOOP\r\n"}}, Admin: []string{"close"}})
 	out = append(out, SrvScenario{Name: "F3-logout-returns-an-error-quit-shutdown", LogoutErr: true, Accepts: []string{"conn"}, Clients: [][]string{{"EHLO c.example\r\n", "QUIT\r\n"}}, Admin: []string{"shutdown"}})
